@@ -140,6 +140,11 @@ def stats_diff(a, b):
 # ------------------------------------------------------------------------------------------------
 # one command line: serial baseline + simulated schedules
 
+GRAN = {True: "fine", False: "coarse", "por": "por"}
+GRAN_TEXT = {True: "every primitive is a scheduling point", False: "blocking primitives are scheduling points",
+             "por": "partial-order reduction: choices only between racing operations (Queue.put, sends that make a connection of main ready, wait and its result)"}
+
+
 class Batch:
     """collects (driver line, impl) pairs of many traces and validates them in one driver call"""
 
@@ -215,7 +220,7 @@ def sim_one(ctx, batch, argv, inputs, names, cores, bufsize, nchunks, chooser, f
     m = ev.m
     ctx.count(f"workers:{cores}")
     ctx.count(f"chunks:{nchunks}")
-    ctx.count("granularity:" + ("fine" if fine else "coarse"))
+    ctx.count("granularity:" + GRAN[fine])
     for t in tags:
         ctx.count(t)
     if nchunks >= 2 and m.workers_active() >= 2:
@@ -295,7 +300,7 @@ def systematic(ctx, workers, nchunks, budget_s, fine):
     base, base_stats = serial_base(argv, inputs)
     batch = Batch(ctx)
     distinct = set()
-    tag = f"dfs:{workers}w{nchunks}c:" + ("fine" if fine else "coarse")
+    tag = f"dfs:{workers}w{nchunks}c:" + GRAN[fine]
 
     def one(ch):
         return sim_one(ctx, batch, argv, inputs, ["in.fastq"], workers, buf, nchunks, ch, fine, base, base_stats, (tag,))
@@ -303,6 +308,8 @@ def systematic(ctx, workers, nchunks, budget_s, fine):
     n = 0
     for ch, (r, ev) in fakemp.dfs(one, budget_s=budget_s):
         n += 1
+        if getattr(r, "por_violations", None):
+            ctx.notes.append(f"partial-order reduction assumption violated: {r.por_violations[:2]}")
         if ev is not None:
             distinct.add(" ".join(ev.m.tokens))
         if len(batch.cases) >= 4000:
@@ -311,8 +318,8 @@ def systematic(ctx, workers, nchunks, budget_s, fine):
     st = fakemp.dfs.state
     ctx.distribution[tag + ":schedules"] = n
     ctx.distribution[tag + ":distinct-traces"] = len(distinct)
-    ctx.notes.append(f"systematic exploration {workers} workers x {nchunks} chunks ({'every primitive' if fine else 'blocking primitives only'} "
-                     f"is a scheduling point): {n} schedules, {len(distinct)} distinct model traces, "
+    ctx.notes.append(f"systematic exploration {workers} workers x {nchunks} chunks ({GRAN_TEXT[fine]}): "
+                     f"{n} schedules, {len(distinct)} distinct model traces, "
                      f"{'tree exhausted' if st['exhausted'] else 'time budget ' + str(budget_s) + ' s reached'}"
                      + (f", {st['mismatch']} replay mismatches" if st["mismatch"] else ""))
     return n, len(distinct), st["exhausted"]
@@ -430,11 +437,11 @@ def run(ctx):
                 "replayed through the Lean transition system and compared byte-wise with -j 1; real multi-process runs; Statistics merges in all "
                 "orders/groupings; non-trivial = distinct action trace in which >= 2 workers each processed a chunk (or a real run / merge with >= 2 chunks / adapters)")
     random_schedules(ctx, ctx.scale(700, 8000), ctx.scale(40, 900))
-    systematic(ctx, 2, 3, ctx.scale(3, 60), fine=False)
+    systematic(ctx, 2, 3, ctx.scale(5, 90), fine="por")
     if ctx.tier == "thorough":
-        systematic(ctx, 2, 3, 60, fine=True)
-        systematic(ctx, 3, 2, 60, fine=False)
-        systematic(ctx, 3, 2, 60, fine=True)
+        systematic(ctx, 3, 2, 90, fine="por")
+        systematic(ctx, 2, 3, 30, fine=True)
+        systematic(ctx, 3, 2, 30, fine=True)
     real_runs(ctx, ctx.scale(24, 400), ctx.scale(15, 600))
     stats_merge(ctx, ctx.scale(12, 150))
 
